@@ -19,6 +19,7 @@ import (
 
 	"github.com/alibaba/sentinel-golang/core/base"
 	"github.com/alibaba/sentinel-golang/logging"
+	"github.com/alibaba/sentinel-golang/util/vhook"
 	"github.com/pkg/errors"
 )
 
@@ -53,6 +54,7 @@ func (mb *MetricBucket) Add(event base.MetricEvent, count int64) {
 }
 
 func (mb *MetricBucket) addCount(event base.MetricEvent, count int64) {
+	vhook.Yield("mb.add")
 	atomic.AddInt64(&mb.counter[event], count)
 }
 
@@ -62,6 +64,7 @@ func (mb *MetricBucket) Get(event base.MetricEvent) int64 {
 		logging.Error(errors.Errorf("Unknown metric event: %v", event), "")
 		return 0
 	}
+	vhook.Yield("mb.get")
 	return atomic.LoadInt64(&mb.counter[event])
 }
 
